@@ -50,9 +50,32 @@ func TestVerifReplayDecodeIPV4(t *testing.T) {
 		t.Logf("BitLength=%d len(Bytes)=%d -> net=%v ones=%d bits=%d err=%v", bl, n, nb, ones, bits, err)
 		if err == nil && (bl > 32 || bl < 0) {
 			t.Logf("REPLAY-CONFIRMED: oversized prefix length accepted")
-		} else {
-			t.Logf("REPLAY-NOT-REPRODUCED")
+			return
 		}
+		if err != nil && bl >= 0 && bl <= 32 {
+			t.Logf("REPLAY-CONFIRMED: well-formed prefix refused")
+			return
+		}
+		if err == nil {
+			// the contract's functional clauses: octet j is the encoded octet while 8*j < BitLength, else 0;
+			// the mask has BitLength ones out of 32 (the model fixes BitLength; the octets are all 0xff here)
+			ip4 := nb.IP.To4()
+			for j := 0; j < 4 && ip4 != nil; j++ {
+				want := byte(0)
+				if 8*j < bl {
+					want = 0xff
+				}
+				if ip4[j] != want {
+					t.Logf("REPLAY-CONFIRMED: octet %d decodes to %#x, the encoded block says %#x", j, ip4[j], want)
+					return
+				}
+			}
+			if ip4 == nil || ones != bl || bits != 32 {
+				t.Logf("REPLAY-CONFIRMED: decoded mask /%d of %d for an encoded prefix length %d", ones, bits, bl)
+				return
+			}
+		}
+		t.Logf("REPLAY-NOT-REPRODUCED")
 	}()
 }
 
